@@ -13,13 +13,13 @@ open Proto EvSel EvSelCrit
                T:<sigma>    ... with index field; <sigma> = the argsort permutation
                H:N | H:<sigma>   the same call on the *current manager object* (state kept between
                                  requests; `hnew` = construct a fresh manager); uses the object model
-                                 `initTrialObj` with the reset flag extracted from the source
+                                 `initTrialObj` (with the reset of the stored table)
                E            select_events on the *current selection-method object*: the sources given in
                             the request are ignored, the cached source array of the object is used
 
       enew <id> <srcRa> <srcDec>      construct the method object(s) with manager object <id>
       echange <id> <srcRa> <srcDec>   change_shg_mgr(manager <id>), whose source list is currently the given one
-                                      (early-return flag extracted from the source)
+                                      (always refreshes the cached source array)
         inc    N | <src list>/<evt list>          (incoming src_evt_idxs; only used in mode S)
         method dec:<delta> | ra:<delta> | box:<delta> | all | psifunc | angerr:<a>:<b>:<floor>
                several methods = left-nested `&` chain; none (mode T only) = no event selection
@@ -55,22 +55,22 @@ def parseMethod (srcs : Array Src) (K : Nat) (tok : String) : Option (Method Ev)
   match tok.splitOn ":" with
   | ["dec", d] =>
     let δ := pF d
-    some (maskMethod K (fun k e => inDecBand srcs[k]!.dec δ e.dec))
+    some (maskMethod K (fun k e => inDecBand (srcs.getD k default).dec δ e.dec))
   | ["ra", d] =>
     let δ := pF d
-    some (maskMethod K (fun k e => inRABand srcs[k]!.ra srcs[k]!.dec δ e.ra))
+    some (maskMethod K (fun k e => inRABand (srcs.getD k default).ra (srcs.getD k default).dec δ e.ra))
   | ["box", d] =>
     let δ := pF d
     some (boxMethod Gen.C05.batchSize K
-      (fun k e => decide (raDistBox srcs[k]!.ra e.ra < dRAhalf srcs[k]!.dec δ))
-      (fun k e => inDecBand srcs[k]!.dec δ e.dec))
+      (fun k e => decide (raDistBox (srcs.getD k default).ra e.ra < dRAhalf (srcs.getD k default).dec δ))
+      (fun k e => inDecBand (srcs.getD k default).dec δ e.dec))
   | ["all"] => some (allMethod K)
-  | ["psifunc"] => some (maskMethod K (fun _ e => psiFunc e.psi e.fval))
+  | ["psifunc"] => some (psiFuncMethod (fun e => psiFunc e.psi e.fval))
   | ["angerr", a, b, fl] =>
     let a := pF a
     let b := pF b
     let fl := pF fl
-    some (pairMethod K (fun k e => angErrCrit a b fl srcs[k]!.ra srcs[k]!.dec e.ra e.dec e.angErr))
+    some (pairMethod K (fun k e => angErrCrit a b fl (srcs.getD k default).ra (srcs.getD k default).dec e.ra e.dec e.angErr))
   | _ => none
 
 def parseMethods (srcs : Array Src) (K : Nat) : List String → Option (List (Method Ev))
@@ -107,7 +107,7 @@ def answerRun (st : St) (line : String) : St × String :=
   | ["hnew"] => ({ st with tdm := TdmObj.fresh }, "ok")
   | ["enew", id, sra, sdec] => ({ st with esm := { shgId := pN id, srcArr := mkSrcs sra sdec } }, "ok")
   | ["echange", id, sra, sdec] =>
-    ({ st with esm := st.esm.changeShgMgr Gen.C05.esmEarlyReturn (pN id) (mkSrcs sra sdec) }, "ok")
+    ({ st with esm := st.esm.changeShgMgr false (pN id) (mkSrcs sra sdec) }, "ok")
   | "run" :: sra :: sdec :: era :: edec :: eae :: epsi :: efv :: mode :: inc :: meths =>
     let srcs : Array Src := (if mode == "E" then st.esm.srcArr else mkSrcs sra sdec).toArray
     let K := srcs.size
@@ -128,7 +128,7 @@ def answerRun (st : St) (line : String) : St × String :=
         let argsort : Option (List Ev → List Nat) :=
           if perm == "N" then none else some (fun _ => pList pN perm)
         if mode.startsWith "H:" then
-          match initTrialObj Gen.C05.resetsTable st.tdm K evs (chainAll ms) argsort with
+          match initTrialObj true st.tdm K evs (chainAll ms) argsort with
           | none => (st, "ERR")
           | some s =>
             ({ st with tdm := s }, s!"ev:{fListD fNat (s.events.map Ev.tag)} {fmtPairs (s.srcEvtIdxs.getD [])}")
